@@ -200,6 +200,10 @@ func changeConfig(method, path string, input []byte, ifMatchHeader string, force
 		}
 	}
 
+	// remember whether the config key is present at all (DELETE /config/
+	// removes it), so that a rejected change can be undone exactly
+	_, hadCfgKey := rawCfg[rawConfigKey]
+
 	err := unsyncedConfigAccess(method, path, input, nil)
 	if err != nil {
 		return err
@@ -225,6 +229,10 @@ func changeConfig(method, path string, input []byte, ifMatchHeader string, force
 	// been loaded yet); we need to unmarshal it again because it's likely
 	// that pointers deep in our rawCfg map were modified
 	restoreOldCfg := func() error {
+		if !hadCfgKey {
+			delete(rawCfg, rawConfigKey)
+			return nil
+		}
 		var oldCfg any
 		var err error
 		if len(rawCfgJSON) > 0 {
